@@ -47,6 +47,11 @@ def select_contracts(reg, prop):
     return sel
 
 
+HINT_KINDS = ("inv.init", "inv.preserve", "ghost-assert", "decreases")
+HINT_POLICY = os.environ.get("VERIF_HINT_POLICY", "undecided")
+hint_failures = []
+
+
 def main(a):
     t0 = time.time()
     prop = a.prop
@@ -139,8 +144,13 @@ def _main(a, prop, tier, seed, t0):
     for key, r in sorted(results.items()):
         ident = r.get("ident", key[0])
         if r.get("error"):
-            crashes.append(f"{ident}: {r['error'].strip().splitlines()[-1]}")
+            last = r["error"].strip().splitlines()[-1]
             print(f"ENGINE-ERROR {ident}:\n{r['error']}")
+            if last.startswith("VACUOUS") or tree_is_pristine(a.repo):
+                crashes.append(f"{ident}: {last}")        # on the registered (pristine) tree an engine exception is a checker defect
+            else:
+                # on another tree an exception inside the symbolic executor almost always means a construct outside its subset
+                undecided.append(f"{ident}: engine exception while executing the changed code symbolically: {last}")
             continue
         if r.get("unsupported"):
             undecided.append(f"{ident}: unbindable/unsupported: {r['unsupported']}")
@@ -163,6 +173,22 @@ def _main(a, prop, tier, seed, t0):
         inlined |= set(r.get("inlined", []))
         if not r["obligations"]:
             crashes.append(f"{ident}: zero obligations generated")
+        if r.get("second_pass"):
+            # verdicts on the non-hint obligations when the failed ghost assertion is not used as a fact: a counter-model there is a violation,
+            # an obligation that merely stops being provable without the hint decides nothing
+            for o2 in r["second_pass"]:
+                if o2["kind"] in HINT_KINDS or o2["status"] == "proved":
+                    continue
+                if o2["status"] == "refuted":
+                    violations.append({"obligation": o2["id"], "contract": ident, "target": key[0], "model": o2.get("model", ""),
+                                       "what": f"obligation {o2['id']} has a counter-model once the failed ghost assertion is no longer assumed"})
+                elif norm_id(o2["id"]) in baseline:
+                    violations.append({"obligation": o2["id"], "contract": ident, "target": key[0],
+                                       "model": "no counter-model: solvers answered " + str(o2.get("reason", "unknown")),
+                                       "what": f"obligation {o2['id']} was discharged on the unchanged tree; a ghost assertion it relied on now has a "
+                                               f"counter-model and without it the obligation is not provable ({o2.get('reason', 'unknown')})"})
+                else:
+                    undecided.append(f"{o2['id']}: not provable without the failed ghost assertion ({o2.get('reason', 'unknown')})")
         for o in r["obligations"]:
             n_obl += 1
             solver_time += o.get("time_s", 0)
@@ -175,6 +201,10 @@ def _main(a, prop, tier, seed, t0):
                 by_backend[o["backend"]] = by_backend.get(o["backend"], 0) + 1
                 if len(samples) < 12 and o["kind"] in ("post", "inv.preserve", "raises", "pre"):
                     samples.append({"obligation": o["id"], "verdict": "proved", "backend": o["backend"]})
+            elif HINT_POLICY == "undecided" and o.get("kind") in HINT_KINDS and o["status"] == "refuted":
+                # the failed obligation is a proof HINT (loop invariant / ghost assertion) with a counter-model: the proof of the contract is void, the
+                # property undecided (unless the second pass / the native search / the bounded driver decide it)
+                hint_failures.append((ident, key[0], o))
             elif r.get("renamed_locals"):
                 # the contract was re-anchored by a positional renaming of locals (a guess): its failures decide nothing
                 undecided.append(f"{o['id']}: {o['status']} after re-anchoring the contract to renamed locals {r['renamed_locals']}")
@@ -183,6 +213,8 @@ def _main(a, prop, tier, seed, t0):
                                    "what": f"obligation {o['id']} has a counter-model"})
             else:
                 open_obls.append((ident, key[0], o))
+    for ident, tgt, o in hint_failures:
+        undecided.append(f"{o['id']}: {o['status']} (proof hint of {ident} no longer valid; contract not decided)")
     # obligations left open: retry alone with a doubled budget (guards against load-induced timeouts), then classify
     if open_obls and violations:
         # a counter-model was already found: the verdict is decided, the open obligations are not retried (keeps a failing run short)
@@ -202,6 +234,8 @@ def _main(a, prop, tier, seed, t0):
             elif o2["status"] == "refuted":
                 violations.append({"obligation": o["id"], "contract": ident, "target": tgt, "model": o2.get("model", ""),
                                    "what": f"obligation {o['id']} has a counter-model"})
+            elif HINT_POLICY == "undecided" and o.get("kind") in HINT_KINDS:
+                undecided.append(f"{o['id']}: {o2.get('reason', 'unknown')} (proof hint of {ident}; contract not decided)")
             elif norm_id(o["id"]) in baseline:
                 # discharged on the unchanged tree, fails now: reported as a violation without a counter-model (brief: no-failing-input-found)
                 violations.append({"obligation": o["id"], "contract": ident, "target": tgt,
@@ -359,6 +393,22 @@ def _main(a, prop, tier, seed, t0):
         print("  no obligations generated for a proof-level claim")
         return 3
     return 0
+
+
+_PRISTINE = {}
+
+
+def tree_is_pristine(repo):
+    """True when `repo` is a git checkout whose skchange/ sources equal its HEAD (the registered tree); a tree with uncommitted changes
+    (a change applied for checking) or a scratch copy without git metadata is not."""
+    if repo not in _PRISTINE:
+        import subprocess
+        try:
+            r = subprocess.run(["git", "-C", repo, "diff", "--quiet", "HEAD", "--", "skchange"], capture_output=True, timeout=30)
+            _PRISTINE[repo] = r.returncode == 0 and os.path.isdir(os.path.join(repo, ".git"))
+        except Exception:
+            _PRISTINE[repo] = False
+    return _PRISTINE[repo]
 
 
 def norm_id(oid):
